@@ -33,7 +33,7 @@ RULE = ("case = one random abstract Verilog design (1-3 primitives, 1-5 modules,
 ASSUMPTIONS = ["module ports are based at 0 and downto (quantifier)",
                "bundled .v files have no independent Verilog reader: reduced oracle, stated in the evidence"]
 REQUIRED = {"texts_parsed": 150, "connection_bits_compared": 5000, "modules_compared": 400}
-ALL_FEATURES = ["shuffle", "consts", "undeclared", "positional", "escaped", "params", "attrs", "assigns", "comments"]
+ALL_FEATURES = ["shuffle", "consts", "undeclared", "positional", "escaped", "params", "attrs", "assigns", "comments", "grouped"]
 DIRS = {"IN": "input", "OUT": "output", "INOUT": "inout", "UNDEFINED": None}
 
 
@@ -56,9 +56,12 @@ def from_netlist(n, ctx=None):
         for d in l.definitions:
             conn = {}
             asg = {}
+            portconn = {}
             for c in d.cables:
                 for wi, w in enumerate(c.wires):
                     for p in w.pins:
+                        if not isinstance(p, BaseOuterPin):
+                            portconn[(p.port.name, p.port.lower_index + list(p.port.pins).index(p))] = (c.name, c.lower_index + wi)
                         if isinstance(p, BaseOuterPin):
                             ip = p.inner_pin
                             k = list(ip.port.pins).index(ip)
@@ -77,7 +80,7 @@ def from_netlist(n, ctx=None):
                 "ports": {p.name: (DIRS[p.direction.name], len(p.pins), p.lower_index) for p in d.ports},
                 "port_order": [p.name for p in d.ports],
                 "nets": {c.name: (len(c.wires), c.lower_index) for c in d.cables},
-                "conn": conn, "assigns": sorted(assigns),
+                "conn": conn, "portconn": portconn, "assigns": sorted(assigns),
                 "insts": {i.name: (i.reference.name, dict(i.get("VERILOG.Parameters", {}) or {}), dict(i.get("VERILOG.InlineConstraints", {}) or {}))
                           for i in d.children if not (i.reference.library is not None and i.reference.library.name == "SDN_VERILOG_ASSIGNMENT")},
                 "params": dict(d.get("VERILOG.Parameters", {}) or {}), "attrs": dict(d.get("VERILOG.InlineConstraints", {}) or {}),
@@ -94,6 +97,7 @@ def model_expected(mods):
             "ports": {vname(n): (d, w, b) for n, d, w, b in e["ports"]},
             "nets": {vname(k): v for k, v in e["nets"].items()},
             "conn": {(vname(i), vname(p), k): (vname(nb[0]), nb[1]) for (i, p, k), nb in e["conn"].items()},
+            "portconn": {(vname(p), k): (vname(c), j) for (p, k), (c, j) in e["portconn"].items()},
             "assigns": sorted((w, tuple(sorted(((vname(a[0]), a[1]), (vname(b[0]), b[1])) for a, b in pairs))) for w, pairs in e["assigns"]),
             "insts": {vname(k): v for k, v in e["insts"].items()},
             "params": e["params"], "attrs": e["attrs"],
@@ -113,7 +117,7 @@ def compare(ctx, mods, n, text):
         if mn not in got:
             return "module-missing", "module %s not in the netlist" % mn
         g = got[mn]
-        for part in ("ports", "conn", "nets", "assigns", "insts", "params", "attrs"):
+        for part in ("ports", "conn", "portconn", "nets", "assigns", "insts", "params", "attrs"):
             dd = canon.first_diff(e[part], g[part])
             if dd:
                 return "reader-differs-from-model:%s" % part, "module %s %s %s" % (mn, part, dd)
